@@ -1,40 +1,112 @@
 /-
   Invariants of the daemon life-cycle model (Model/Lifecycle.lean) used by Props/C03.lean part (ii).
-  Core Lean only. Every statement is for all numbers of controllers and all schedules.
+  Core Lean only. Every statement is for all numbers of controllers and all schedules; the last two sections
+  are about one controller on its own (`CRun`, what stream `lc` drives) and its simulation by the daemon model.
 -/
 import Fan2go.Model.Lifecycle
 namespace Fan2go.Lifecycle
 
 /-! ### one controller -/
 
-/-- Per-controller invariant: nothing is written before initialisation / the first tick; a controller
-    that has left the control loop has restored its fan; a controller whose `Run` has returned has
-    restored its fan if regulation had begun, and also if it was only touched by the initialisation
-    sequence — except on the `postInitError` return. -/
+/-- Per-controller invariant: nothing is written before the first analysis step / the first tick; a
+    controller that has left the control loop has restored its fan and the registers show it; a controller
+    whose `Run` has returned has restored its fan if regulation had begun and also if it had only been
+    touched by the start-up analysis; the only unrestored returns are the `runError` ones, untouched. -/
 def cinv (c : CState) : Bool :=
   match c.phase with
-  | .readOrig | .startupWait | .loadOrInit => !c.touched && !c.regulated && !c.restored
-  | .initializing | .postInit => !c.regulated && !c.restored
-  | .ticking | .restoring => c.regulated && !c.restored
-  | .joining => c.regulated && c.restored
-  | .exited => (!c.regulated || c.restored) &&
-      (!c.touched || c.restored || c.reason == some .postInitError)
+  | .readOrig | .startupWait | .loadOrInit | .initializing => !c.touched && !c.regulated && !c.restored
+  | .initSweep | .initMeasure | .postInit | .mapSweep => !c.regulated && !c.restored
+  | .headStart | .ticking | .restoring => c.regulated && !c.restored
+  | .joining => c.regulated && c.restored && c.touched && c.regsRestored
+  | .exited => (!c.regulated || c.restored) && (!c.touched || c.restored) &&
+      (!c.restored || c.regsRestored) &&
+      (c.restored || c.reason == some .runError) &&
+      c.reason.isSome
+
+theorem restore_regs (c : CState) : c.restore.regsRestored = true ∧ c.restore.restored = true ∧
+    c.restore.touched = true ∧ c.restore.regulated = c.regulated ∧ c.restore.phase = c.phase ∧
+    c.restore.reason = c.reason := by
+  unfold CState.restore CState.regsRestored
+  split <;> simp_all
+
+theorem manual_flags (c : CState) : c.manual.regulated = c.regulated ∧ c.manual.restored = c.restored ∧
+    c.manual.phase = c.phase ∧ c.manual.reason = c.reason := by
+  unfold CState.manual; split <;> simp
 
 theorem cstep_cinv {b : Bool} {c c' : CState} {a : CAct} {ev : CEv}
     (h : cinv c = true) (hs : cstep b c a = some (c', ev)) : cinv c' = true := by
-  rcases c with ⟨ph, hr, t, rg, rs, rn⟩
-  cases a <;> cases ph <;> simp [cstep] at hs
-  all_goals (try (obtain ⟨rfl, rfl⟩ := hs)) <;> (try (obtain ⟨-, rfl, rfl⟩ := hs))
-  all_goals simp_all [cinv]
+  have hr := restore_regs c
+  have hm := manual_flags c
+  cases hph : c.phase <;> cases a <;> simp [cstep, hph] at hs
+  all_goals (try split at hs)
+  all_goals (try simp at hs)
+  all_goals (try (obtain ⟨rfl, rfl⟩ := hs))
+  all_goals (try (obtain ⟨-, rfl, rfl⟩ := hs))
+  all_goals simp_all [cinv, CState.wr, CState.regsRestored]
 
-/-- A controller's `Run` returns an error only through the three error exits, and returns at all only
-    into phase `exited`. -/
+/-- A controller's `Run` returns only into phase `exited`, and a move into `exited` is a return; the
+    error flag is set exactly on the three error exits. -/
 theorem cstep_returned {b : Bool} {c c' : CState} {a : CAct} {e : Bool}
     (hs : cstep b c a = some (c', .returned e)) : c'.phase = .exited := by
-  rcases c with ⟨ph, hr, t, rg, rs, rn⟩
-  cases a <;> cases ph <;> simp [cstep] at hs
-  all_goals (try (obtain ⟨rfl, -⟩ := hs)) <;> (try (obtain ⟨-, rfl, -⟩ := hs))
+  have hr := restore_regs c
+  cases hph : c.phase <;> cases a <;> simp [cstep, hph] at hs
+  all_goals (try split at hs)
+  all_goals (try simp at hs)
+  all_goals (try (obtain ⟨rfl, -⟩ := hs))
+  all_goals (try (obtain ⟨-, rfl, -⟩ := hs))
   all_goals rfl
+
+theorem cstep_quiet {b : Bool} {c c' : CState} {a : CAct}
+    (hs : cstep b c a = some (c', .quiet)) : c'.phase ≠ .exited ∧ c.phase ≠ .exited := by
+  have hm := manual_flags c
+  have hr := restore_regs c
+  cases hph : c.phase <;> cases a <;> simp [cstep, hph] at hs
+  all_goals (try split at hs)
+  all_goals (try simp at hs)
+  all_goals (try subst hs)
+  all_goals (try (obtain ⟨-, rfl⟩ := hs))
+  all_goals simp_all [CState.wr]
+
+theorem cstep_exited {b : Bool} {c : CState} {a : CAct} (h : c.phase = .exited) : cstep b c a = none := by
+  cases a <;> simp [cstep, h]
+
+/-- What the invariant says about a controller whose `Run` has returned. -/
+theorem cinv_exited {c : CState} (h : cinv c = true) (hph : c.phase = .exited) :
+    (c.regulated = true → c.restored = true) ∧ (c.touched = true → c.restored = true) ∧
+    (c.restored = true → c.regsRestored = true) ∧
+    (c.restored = false → c.reason = some .runError ∧ c.touched = false) ∧
+    c.reason.isSome = true := by
+  simp [cinv, hph] at h
+  obtain ⟨⟨⟨⟨h1, h2⟩, h3⟩, h4⟩, h5⟩ := h
+  refine ⟨fun hr => ?_, fun hr => ?_, fun hr => ?_, fun hr => ⟨?_, ?_⟩, h5⟩
+  · simpa [hr] using h1
+  · simpa [hr] using h2
+  · simpa [hr] using h3
+  · simpa [hr] using h4
+  · simpa [hr] using h2
+
+/-- `Run` returns an error only from the start-up paths: regulation had not begun. -/
+theorem cstep_returned_err {b : Bool} {c c' : CState} {a : CAct}
+    (h : cinv c = true) (hs : cstep b c a = some (c', .returned true)) : c'.regulated = false := by
+  have hr := restore_regs c
+  cases hph : c.phase <;> cases a <;> simp [cstep, hph] at hs
+  all_goals (try split at hs)
+  all_goals (try simp at hs)
+  all_goals (try subst hs)
+  all_goals simp_all [cinv]
+
+/-- A move that leaves the fan untouched leaves its registers as they were. -/
+theorem cstep_untouched {b : Bool} {c c' : CState} {a : CAct} {ev : CEv}
+    (hs : cstep b c a = some (c', ev)) (ht : c'.touched = false) :
+    c.touched = false ∧ c'.mode = c.mode ∧ c'.pwm = c.pwm := by
+  cases hph : c.phase <;> cases a <;> simp [cstep, hph] at hs
+  all_goals (try split at hs)
+  all_goals (try simp at hs)
+  all_goals (try (obtain ⟨rfl, rfl⟩ := hs))
+  all_goals (try (obtain ⟨-, rfl, rfl⟩ := hs))
+  all_goals (revert ht; simp [CState.manual, CState.restore, CState.wr])
+  all_goals (try split)
+  all_goals simp_all
 
 /-! ### the daemon -/
 
@@ -173,10 +245,10 @@ theorem progress_ticking {s : LState} {i : Nat} {c : CState} (hp : s.proc = .run
 /-- Enabledness, `restoring`: `restorePwmEnabled` is always enabled (it does not wait for anything). -/
 theorem progress_restoring {s : LState} {i : Nat} {c : CState} (hp : s.proc = .running)
     (hi : s.ctls[i]? = some c) (hph : c.phase = .restoring) :
-    (lstep .fixed s (.ctl i .advance)).ctls[i]? = some { c with phase := .joining, restored := true } ∧
+    (lstep .fixed s (.ctl i .advance)).ctls[i]? = some { c.restore with phase := .joining } ∧
     (lstep .fixed s (.ctl i .advance)).proc = .running ∧
     (lstep .fixed s (.ctl i .advance)).cancelled = s.cancelled := by
-  have hcs : cstep s.cancelled c .advance = some ({ c with phase := .joining, restored := true }, .quiet) := by
+  have hcs : cstep s.cancelled c .advance = some ({ c.restore with phase := .joining }, .quiet) := by
     simp [cstep, hph]
   obtain ⟨fr, h, -⟩ := lstep_ctl_fixed hp hi hcs
   rw [h]
@@ -194,22 +266,49 @@ theorem progress_joining {s : LState} {i : Nat} {c : CState} (hp : s.proc = .run
   rw [h]
   exact ⟨getElem?_set_self' hi, hp⟩
 
-/-- distance of a phase from `exited` along the shutdown path -/
+/-- distance of a phase from `exited`: every move other than the self-loops `write` / `tick` lowers it -/
 def rank : Phase → Nat
-  | .exited => 0 | .joining => 1 | .restoring => 2 | .ticking => 3
-  | .postInit => 4 | .initializing => 5 | .loadOrInit => 4 | .startupWait => 5 | .readOrig => 6
+  | .exited => 0 | .joining => 1 | .restoring => 2 | .ticking => 3 | .headStart => 4 | .mapSweep => 5
+  | .postInit => 6 | .initMeasure => 7 | .initSweep => 8 | .initializing => 9 | .loadOrInit => 10
+  | .startupWait => 11 | .readOrig => 12
 
 def mu : List CState → Nat
   | [] => 0
   | c :: cs => rank c.phase + mu cs
 
+theorem rank_le (p : Phase) : rank p ≤ 12 := by cases p <;> simp [rank]
+
+theorem rank_zero {p : Phase} (h : rank p = 0) : p = .exited := by cases p <;> simp [rank] at h ⊢
+
+/-- Every enabled move either lowers the rank or is one more write of the analysis / one more cycle of
+    the control loop in the same phase: a controller cannot circle. -/
+theorem cstep_rank {b : Bool} {c c' : CState} {a : CAct} {ev : CEv} (hs : cstep b c a = some (c', ev)) :
+    rank c'.phase < rank c.phase ∨
+    (c'.phase = c.phase ∧ ((∃ v, a = .write v) ∨ (∃ v, a = .tick v))) := by
+  have hm := manual_flags c
+  have hr := restore_regs c
+  cases hph : c.phase <;> cases a <;> simp [cstep, hph] at hs
+  all_goals (try split at hs)
+  all_goals (try simp at hs)
+  all_goals (try (obtain ⟨rfl, rfl⟩ := hs))
+  all_goals (try (obtain ⟨-, rfl, rfl⟩ := hs))
+  all_goals simp_all [rank, CState.wr]
+
+/-- With `ctx` cancelled the move `nextMove` is enabled in every phase but `exited`, and lowers the rank. -/
+theorem cstep_next (c : CState) (h : c.phase ≠ .exited) :
+    ∃ c' ev, cstep true c (nextMove c) = some (c', ev) ∧ rank c'.phase < rank c.phase := by
+  have hm := manual_flags c
+  have hr := restore_regs c
+  cases hph : c.phase
+  case exited => exact absurd hph h
+  all_goals simp [nextMove, cstep, hph]
+  all_goals (try split)
+  all_goals simp_all [rank]
+
 theorem cstep_progress (c : CState) (h : c.phase ≠ .exited) :
-    ∃ a c' ev, cstep true c a = some (c', ev) ∧ rank c'.phase < rank c.phase := by
-  rcases c with ⟨ph, hr, t, rg, rs, rn⟩
-  cases ph
-  case exited => exact absurd rfl h
-  case ticking => exact ⟨.seeCancel, _, _, rfl, by simp [rank]⟩
-  all_goals exact ⟨.advance, _, _, rfl, by simp [rank]⟩
+    ∃ a c' ev, cstep true c a = some (c', ev) ∧ rank c'.phase < rank c.phase :=
+  let ⟨c', ev, h1, h2⟩ := cstep_next c h
+  ⟨_, c', ev, h1, h2⟩
 
 theorem mu_set : ∀ (l : List CState) (i : Nat) (c c' : CState), l[i]? = some c →
     mu (l.set i c') + rank c.phase = mu l + rank c'.phase
@@ -227,8 +326,7 @@ theorem mu_zero : ∀ (l : List CState), mu l = 0 → ∀ c ∈ l, c.phase = .ex
   | x :: xs, h, c, hc => by
     simp [mu] at h
     rcases List.mem_cons.1 hc with rfl | hc
-    · rcases c with ⟨ph, _, _, _, _, _⟩
-      cases ph <;> simp [rank] at h ⊢
+    · exact rank_zero h.1
     · exact mu_zero xs h.2 c hc
 
 theorem mu_pos : ∀ (l : List CState), 0 < mu l →
@@ -287,5 +385,189 @@ theorem lrun_append (sem : Sem) : ∀ (a b : List Choice) (s : LState),
     lrun sem s (a ++ b) = lrun sem (lrun sem s a) b
   | [], _, _ => rfl
   | x :: a, b, s => by simp [lrun, lrun_append sem a b]
+
+/-! ### one controller on its own (`CRun`): what stream `lc` samples -/
+
+theorem cstep_regulated {b : Bool} {c c' : CState} {a : CAct} {ev : CEv}
+    (hs : cstep b c a = some (c', ev)) (h : c.regulated = true) : c'.regulated = true := by
+  have hm := manual_flags c
+  have hr := restore_regs c
+  cases hph : c.phase <;> cases a <;> simp [cstep, hph] at hs
+  all_goals (try split at hs)
+  all_goals (try simp at hs)
+  all_goals (try (obtain ⟨rfl, rfl⟩ := hs))
+  all_goals (try (obtain ⟨-, rfl, rfl⟩ := hs))
+  all_goals simp_all [CState.wr]
+
+/-- Invariant of a single controller's run on a fan whose registers read `m0` / `p0` at the start. -/
+structure RInv (m0 p0 : Int) (s : CRun) : Prop where
+  inv : cinv s.c = true
+  /-- `Run` has returned exactly when the controller is in `exited` -/
+  ret : s.ret.isSome = true ↔ s.c.phase = .exited
+  /-- an untouched fan's registers are as they were found -/
+  untouched : s.c.touched = false → s.c.mode = m0 ∧ s.c.pwm = p0
+  /-- a control cycle has begun only if regulation has -/
+  cyc : 0 < s.cycles → s.c.regulated = true
+  /-- `Run` returns an error only from the start-up paths -/
+  err : s.ret = some true → s.c.regulated = false
+
+theorem cinit_rinv (hasRpm hasMode : Bool) (m0 p0 : Int) : RInv m0 p0 (cinit hasRpm hasMode m0 p0) :=
+  ⟨rfl, by simp [cinit], fun _ => ⟨rfl, rfl⟩, by simp [cinit], by simp [cinit]⟩
+
+theorem crunStep_rinv {m0 p0 : Int} {s : CRun} (h : RInv m0 p0 s) (e : CEvt) : RInv m0 p0 (crunStep s e) := by
+  obtain ⟨h1, h2, h3, h4, h5⟩ := h
+  cases e with
+  | cancel => exact ⟨h1, h2, h3, h4, h5⟩
+  | act a =>
+    simp only [crunStep]
+    cases hcs : cstep s.cancelled s.c a with
+    | none => exact ⟨h1, h2, h3, h4, h5⟩
+    | some r =>
+      obtain ⟨c', ev⟩ := r
+      have hinv := cstep_cinv h1 hcs
+      refine ⟨hinv, ?_, ?_, ?_, ?_⟩
+      · cases ev with
+        | quiet =>
+          obtain ⟨hq1, hq2⟩ := cstep_quiet hcs
+          simp only []
+          constructor
+          · intro hr; exact absurd (h2.1 hr) hq2
+          · intro hp; exact absurd hp hq1
+        | returned b =>
+          simp only [Option.isSome_some, true_iff]
+          exact cstep_returned hcs
+      · intro ht
+        obtain ⟨ht0, hm, hp⟩ := cstep_untouched hcs ht
+        obtain ⟨hm0, hp0⟩ := h3 ht0
+        exact ⟨hm.trans hm0, hp.trans hp0⟩
+      · intro hpos
+        by_cases hreg : s.c.regulated = true
+        · exact cstep_regulated hcs hreg
+        · -- the counter has just become positive: the move was a cycle in `ticking`
+          have h0 : ¬ 0 < s.cycles := fun h => hreg (h4 h)
+          have hph : s.c.phase = .ticking := by
+            cases hph : s.c.phase <;> cases a <;> simp_all
+          simp [cinv, hph] at h1
+          exact absurd h1.1 hreg
+      · cases ev with
+        | quiet =>
+          obtain ⟨-, hq2⟩ := cstep_quiet hcs
+          intro hr
+          have : s.ret.isSome = true := by simp only [] at hr; rw [hr]; rfl
+          exact absurd (h2.1 this) hq2
+        | returned b =>
+          intro hr
+          simp only [Option.some.injEq] at hr
+          subst hr
+          exact cstep_returned_err h1 hcs
+
+theorem crun_rinv {m0 p0 : Int} : ∀ (es : List CEvt) {s : CRun}, RInv m0 p0 s → RInv m0 p0 (crun s es)
+  | [], _, h => h
+  | e :: es, _, h => crun_rinv es (crunStep_rinv h e)
+
+theorem crun_append : ∀ (a b : List CEvt) (s : CRun), crun s (a ++ b) = crun (crun s a) b
+  | [], _, _ => rfl
+  | x :: a, b, s => by simp [crun, crun_append a b]
+
+theorem crunStep_cancelled (s : CRun) (e : CEvt) (h : s.cancelled = true) : (crunStep s e).cancelled = true := by
+  cases e with
+  | cancel => rfl
+  | act a =>
+    simp only [crunStep]
+    cases cstep s.cancelled s.c a with
+    | none => exact h
+    | some r => exact h
+
+theorem crun_cancelled : ∀ (es : List CEvt) (s : CRun), s.cancelled = true → (crun s es).cancelled = true
+  | [], _, h => h
+  | e :: es, s, h => crun_cancelled es _ (crunStep_cancelled s e h)
+
+/-- Once `ctx` is cancelled, `rank` many success-path moves bring the controller to `exited`: nothing on
+    the shutdown path waits for anything. -/
+theorem drain_exits : ∀ (n : Nat) (s : CRun), s.cancelled = true → rank s.c.phase ≤ n →
+    (drain n s).c.phase = .exited
+  | 0, s, _, hr => rank_zero (Nat.le_zero.1 hr)
+  | n + 1, s, hc, hr => by
+    simp only [drain]
+    by_cases hex : s.c.phase = .exited
+    · have : crunStep s (.act (nextMove s.c)) = s := by simp [crunStep, cstep_exited hex]
+      rw [this]
+      exact drain_exits n s hc (by simp [hex, rank])
+    · obtain ⟨c', ev, hcs, hlt⟩ := cstep_next s.c hex
+      have hstep : (crunStep s (.act (nextMove s.c))).c = c' ∧
+          (crunStep s (.act (nextMove s.c))).cancelled = true := by
+        simp [crunStep, hc, hcs]
+      apply drain_exits n _ hstep.2
+      rw [hstep.1]; omega
+
+theorem drain_eq_crun : ∀ (n : Nat) (s : CRun), ∃ es, drain n s = crun s es
+  | 0, s => ⟨[], rfl⟩
+  | n + 1, s => by
+    obtain ⟨es, h⟩ := drain_eq_crun n (crunStep s (.act (nextMove s.c)))
+    exact ⟨.act (nextMove s.c) :: es, h⟩
+
+/-! ### the single controller IS the one-controller daemon (`CRun` vs `LState`) -/
+
+/-- the single controller's events as choices of the daemon LTS with one controller: a move of the
+    controller, or one signal taken by the signal actor followed by the group's interrupt (`cancel()`) -/
+def embed : List CEvt → List Choice
+  | [] => []
+  | .act a :: es => .ctl 0 a :: embed es
+  | .cancel :: es => .signal :: .sigActor :: .interrupt :: embed es
+
+structure Sim (L : LState) (s : CRun) : Prop where
+  ctls : L.ctls = [s.c]
+  canc : L.cancelled = s.cancelled
+  run : L.proc = .running
+  open_ : L.chanClosed = false
+  buf : L.chanBuf = 0 ∨ L.chanBuf = 1
+  pre : L.cancelled = false → L.sigReturned = false ∧ L.interrupted = false
+  post : L.cancelled = true → L.sigReturned = true ∧ L.interrupted = true
+
+theorem sim_step {L : LState} {s : CRun} (h : Sim L s) (e : CEvt) :
+    Sim (lrun .fixed L (embed [e])) (crunStep s e) := by
+  obtain ⟨h1, h2, h3, h4, h5, h6, h7⟩ := h
+  rcases L with ⟨ctls, canc, buf, closed, sret, fr, intr, proc⟩
+  simp only at h1 h2 h3 h4 h5 h6 h7
+  subst h1 h3 h4
+  cases e with
+  | cancel =>
+    cases canc
+    · obtain ⟨rfl, rfl⟩ := h6 rfl
+      rcases h5 with rfl | rfl <;> cases fr <;>
+        exact ⟨rfl, rfl, rfl, rfl, .inl rfl, by simp [embed, lrun, lstep, noteReturn], by simp [embed, lrun, lstep, noteReturn]⟩
+    · obtain ⟨rfl, rfl⟩ := h7 rfl
+      rcases h5 with rfl | rfl <;> cases fr <;>
+        simp [embed, lrun, lstep, crunStep] <;>
+        exact ⟨rfl, by simp, rfl, rfl, by simp, by simp, by simp⟩
+  | act a =>
+    simp only [embed, lrun, lstep, crunStep, List.getElem?_cons_zero, ← h2]
+    cases hcs : cstep canc s.c a with
+    | none => exact ⟨rfl, h2, rfl, rfl, h5, h6, h7⟩
+    | some r =>
+      obtain ⟨c', ev⟩ := r
+      cases ev with
+      | quiet => exact ⟨rfl, rfl, rfl, rfl, h5, h6, h7⟩
+      | returned b =>
+        cases b <;> simp only [noteReturn_eq] <;> exact ⟨rfl, rfl, rfl, rfl, h5, h6, h7⟩
+
+theorem embed_append : ∀ (a b : List CEvt), embed (a ++ b) = embed a ++ embed b
+  | [], _ => rfl
+  | .act x :: a, b => by simp [embed, embed_append a b]
+  | .cancel :: a, b => by simp [embed, embed_append a b]
+
+theorem sim_run : ∀ (es : List CEvt) {L : LState} {s : CRun}, Sim L s →
+    Sim (lrun .fixed L (embed es)) (crun s es)
+  | [], _, _, h => h
+  | e :: es, L, s, h => by
+    have h1 := sim_step h e
+    have : embed (e :: es) = embed [e] ++ embed es := embed_append [e] es
+    rw [this, lrun_append]
+    exact sim_run es h1
+
+/-- the daemon with the single controller `c`, right after start, simulates the controller on its own -/
+theorem sim_init (c : CState) : Sim { ctls := [c] } { c := c } :=
+  ⟨rfl, rfl, rfl, rfl, .inl rfl, fun _ => ⟨rfl, rfl⟩, fun h => by simp at h⟩
+
 
 end Fan2go.Lifecycle
